@@ -6,6 +6,7 @@ import Pyrtma.Proofs.ManagerSimOrigin
 import Pyrtma.Proofs.ManagerSimConn
 import Pyrtma.Proofs.ManagerSimOwedDep
 import Pyrtma.Proofs.ManagerSimOwedSeg
+import Pyrtma.Proofs.ManagerSimOwedRun
 /-!
 # C14 — undeliverable messages are reported, not silently lost
 
@@ -15,6 +16,7 @@ state, frame, writable set, set of failing sockets and every nested forward `fwd
 
 Refinement link, partial — what is missing is the C14 clause of `checkDepartures` on the stretch before the first read
 of a round (the accept branch) and the assembly over a whole run (`Spec.NoErr "C14" (runSpec …)`):
+`spec_frame_loop_adds_no_c14_on_model` (the Spec's loop over the frames of a round adds no C14 entry),
 `spec_segment_adds_no_c14_on_model` (`Spec.segment` adds no C14 entry on the events of any frame the model reads in a
 simulated state: the counted lower bounds of `checkData` and of `checkDepartures`, every branch; model-level cores
 `undeliverable_reported_counted`, `departure_notices_counted`, `nested_departure_notices_counted`),
@@ -352,5 +354,20 @@ example : (Spec.checkDepartures {} { exA with mods := [{ uid := 1, modId := 11, 
     (Spec.checkDepartures {} { exA with mods := [{ uid := 1, modId := 11, connected := true, types := [33] },
         { uid := 2, modId := 12, connected := true, types := [8] }, { uid := 3, modId := 13, connected := true }] }
       (some 3) [.close 3, .send 2 1 (failedFrame {} 11 (closedFrame {} { uid := 3, modId := 13 }))]).errs = [] := by decide
+
+/-- **The Spec's loop over the frames of a round adds no C14 entry on the model's own run.**  `s` is the model's state when
+the frames `reads` of a round start being read (after the accept branch and the poll), `a` an abstract state that
+simulates it, `sQ` the state after the frames — and after the periodic section, whose events belong to the last segment —
+`E` the events from `s` to `sQ`.  `Spec.roundBody.go` on `reads` and the segments of `E` (per frame: `checkNoticeOrigin`,
+`checkLoggerWaited`, `segment`) adds no C14 entry.  Not covered: the stretch before the first read of a round, for which
+the C14 clause of `checkDepartures` is too strict as written when the round accepts a connection and reads nothing
+(report, `defect_2`), and hence a whole round / a whole run. -/
+theorem spec_frame_loop_adds_no_c14_on_model (cfg : Cfg) (ok : CfgOK cfg) (hfuel : cfg.fuel = 0) (hperm : OrdPerm cfg)
+    (hmt : cfg.mtClosed ≠ cfg.allTypes) (reads : List Read) (a : Spec.A) (s sQ : State) (E : List Ev) (fuel : Nat)
+    (inv : Inv cfg a s) (hwf : ∀ rd ∈ reads, rd.uid ≠ 0) (hlen : reads.length ≤ fuel)
+    (q : QuietTo cfg (readAll cfg reads s) sQ)
+    (hQ : sQ = readAll cfg reads s ∨ sQ = ticks cfg (readAll cfg reads s)) (he : sQ.out = s.out ++ E)
+    (hn : Spec.NoErr "C14" a) : Spec.NoErr "C14" (Spec.roundBody.go cfg a reads (Spec.splitRd E).2 fuel) :=
+  readAll_go_c14 ok hfuel hperm hmt reads a s sQ E fuel inv hwf hlen q hQ he hn
 
 end Pyrtma.C14
